@@ -176,7 +176,10 @@ fn parse_modifiers(exprs: &[Option<ExprOrSpread>]) -> BTreeSet<Atom> {
 
 fn parse_v_text_directive(jsx_attr: &JSXAttr) -> Directive {
     let expr = match &jsx_attr.value {
-        Some(JSXAttrValue::Lit(lit)) => Expr::Lit(lit.clone()),
+        // a JSX string is not a JS string: keep the value, not the source text
+        Some(JSXAttrValue::Lit(Lit::Str(str))) => {
+            Expr::Lit(Lit::Str(quote_str!(str.value.clone())))
+        }
         Some(JSXAttrValue::JSXExprContainer(JSXExprContainer {
             expr: JSXExpr::Expr(expr),
             ..
@@ -208,7 +211,10 @@ fn parse_v_text_directive(jsx_attr: &JSXAttr) -> Directive {
 
 fn parse_v_html_directive(jsx_attr: &JSXAttr) -> Directive {
     let expr = match &jsx_attr.value {
-        Some(JSXAttrValue::Lit(lit)) => Expr::Lit(lit.clone()),
+        // a JSX string is not a JS string: keep the value, not the source text
+        Some(JSXAttrValue::Lit(Lit::Str(str))) => {
+            Expr::Lit(Lit::Str(quote_str!(str.value.clone())))
+        }
         Some(JSXAttrValue::JSXExprContainer(JSXExprContainer {
             expr: JSXExpr::Expr(expr),
             ..
